@@ -625,7 +625,6 @@ def join_frag_list(thorough):
 def part_join(ctx, spec):
     ia_lo, ia_hi = spec
     frs = join_frag_list(ctx.thorough)
-    n = 0
     for ia in range(ia_lo, ia_hi):
         fa = frs[ia]
         for ib, fb in enumerate(frs):
@@ -637,33 +636,31 @@ def part_join(ctx, spec):
                     j = (ia + ib + pb_) % 6
                     combos = [combos[j], combos[(j + 3) % 6]]
                 for dist, opt in combos:
-                    if True:
-                        n += 1
-                        k = ia * 7 + ib * 3 + pb_
-                        case = {
-                            "family": "join",
-                            "A": list(fa),
-                            "B": list(fb),
-                            "poseA": ia % len(N.POSES),
-                            "poseB": pb_,
-                            "dist": dist,
-                            "opt": opt,
-                            # the charge / multiplicity alphabets rotate through the structural product
-                            "qA": Q_MENU[k % 3],
-                            "qB": Q_MENU[(k // 3) % 3],
-                            "mA": M_MENU[(k // 2) % 3],
-                            "mB": M_MENU[(k // 5) % 3],
-                            "charge": QO_MENU[(k // 4) % 4] if pb_ % 2 else None,
-                            "mult": MO_MENU[(k // 7) % 3] if pb_ % 3 == 1 else None,
-                            "eoffA": ia % 4,
-                            "eoffB": (ib + 1) % 4,
-                            "by_atom": bool((ia + ib) % 2),
-                            "newbond": (ia + ib + pb_) % 5 == 0,
-                            "cls": "Structure" if (ia + 2 * ib + pb_) % 7 == 0 else "Molecule",
-                        }
-                        exec_join(ctx, case)
-                        if ia == 2 and ib == 9 and pb_ == 3 and dist == 1.0:
-                            ctx.sample(case)
+                    k = ia * 7 + ib * 3 + pb_
+                    case = {
+                        "family": "join",
+                        "A": list(fa),
+                        "B": list(fb),
+                        "poseA": ia % len(N.POSES),
+                        "poseB": pb_,
+                        "dist": dist,
+                        "opt": opt,
+                        # the charge / multiplicity alphabets rotate through the structural product
+                        "qA": Q_MENU[k % 3],
+                        "qB": Q_MENU[(k // 3) % 3],
+                        "mA": M_MENU[(k // 2) % 3],
+                        "mB": M_MENU[(k // 5) % 3],
+                        "charge": QO_MENU[(k // 4) % 4] if pb_ % 2 else None,
+                        "mult": MO_MENU[(k // 7) % 3] if pb_ % 3 == 1 else None,
+                        "eoffA": ia % 4,
+                        "eoffB": (ib + 1) % 4,
+                        "by_atom": bool((ia + ib) % 2),
+                        "newbond": (ia + ib + pb_) % 5 == 0,
+                        "cls": "Structure" if (ia + 2 * ib + pb_) % 7 == 0 else "Molecule",
+                    }
+                    exec_join(ctx, case)
+                    if ia == 2 and ib == 9 and pb_ == 3 and dist == 1.0:
+                        ctx.sample(case)
 
 
 def part_qm(ctx, spec):
@@ -895,14 +892,21 @@ def _chunks(n, k):
 
 def run(ctx):
     thorough = ctx.thorough
+    opt_text = (
+        "the full product dist {None,1.0,2.5} x optimize_rotation {off,on}"
+        if thorough
+        else "two of the six (dist {None,1.0,2.5}, optimize_rotation {off,on}) combinations per (A, B, pose), rotating so that every (A, B) pair meets all six over its poses (quick tier; the thorough tier runs the full product)"
+    )
+    par_text = "all 19 x 19 fragment pairs x 4 length ratios" if thorough else "19 fragments as A x 7 (one per skeleton + a two-attachment one) as B x 2 length ratios (quick tier)"
     ctx.rule = (
         "exhaustive over a finite input lattice, nothing sampled: every tree skeleton on 1..4 heavy atoms and the 3-ring with an attachment "
-        "point on any atom (plus two-/three-attachment fragments), 3 atom orders, as A and as B x 6 rigid poses x dist {None,1.0,2.5} x "
-        "optimize_rotation {off,on}, coordinates turned by the seed-chosen global rotation; the full charge/mult/override product on two "
-        "structural cases; exactly parallel and antiparallel attachment vectors with EVERY answer of a 12-entry numpy.random.rand menu "
-        "(+ answers parallel to v2), each call executed at least twice with different answers and global generator seeds; iterated joins "
-        "through scripts/combine._ml_assemble for every order of core_aps. A case is non-trivial when all its executions satisfy every oracle "
-        "(each case moves B by a rigid motion that is not the identity)"
+        "point on any atom (plus two-/three-attachment fragments), 3 atom orders, as A and as B x 6 rigid poses of B x " + opt_text + ", coordinates "
+        "turned by the seed-chosen global rotation; the full charge/mult/override product (972) on two structural cases; exactly parallel and "
+        "antiparallel attachment vectors (" + par_text + " x {global pose, both anchors at the origin, axis aligned} x optimize_rotation) with EVERY "
+        "answer of a 12-entry numpy.random.rand menu (+ answers parallel to v2 when they lie in [0,1)^3); every case is executed at least twice "
+        "with different answers and different global generator seeds; iterated joins through scripts/combine._ml_assemble for every order of "
+        "core_aps. The result is 'holds for every lattice point'. A case is non-trivial when all its executions satisfy every oracle "
+        "(every case moves B by a rigid motion other than the identity)"
     )
     ctx.assumptions += [
         "tolerance 1e-9 relative to the largest coordinate involved (Molecule/Structure coordinates are float64 - measured)",
